@@ -60,7 +60,14 @@ def main(argv=None):
         print("HARNESS-ERROR: cannot provide dependencies: %s" % exc)
         return 2
     if args.setup:
-        print("setup ok (installed: %s)" % (", ".join(installed) or "nothing needed"))
+        # optional: atheris for the coverage-guided supplement of the thorough tiers of C07/C08
+        deps = os.path.join(ROOT, ".deps")
+        note = "present"
+        if not os.path.isdir(os.path.join(deps, "atheris")):
+            os.makedirs(deps, exist_ok=True)
+            res = subprocess.run([sys.executable, "-m", "pip", "install", "--quiet", "--no-index", "--find-links", WHEELS, "--target", deps, "atheris"], stdout=subprocess.PIPE, stderr=subprocess.STDOUT)
+            note = "installed" if res.returncode == 0 else "unavailable (supplement will be skipped)"
+        print("setup ok (installed: %s; atheris: %s)" % (", ".join(installed) or "nothing needed", note))
         return 0
     props = sorted(f[:-3].upper() for f in os.listdir(os.path.join(ROOT, "vf", "props")) if f.startswith("c") and f.endswith(".py"))
     if args.list:
